@@ -611,11 +611,17 @@ class Inliner:
         # helpers first (so that helper-in-helper is expanded before the helper is copied), then everything else
         order = [d for d in self.defs if id(d[1]) in helper_nodes] + [d for d in self.defs if id(d[1]) not in helper_nodes]
         for q, node, kind, owner in order:
-            nested = {}
+            nested, bound = {}, {}
             for st in ast.walk(node):
+                if st is not node and isinstance(st, (ast.FunctionDef, ast.AsyncFunctionDef, ast.ClassDef)):
+                    bound[st.name] = bound.get(st.name, 0) + 1
                 if st is not node and isinstance(st, (ast.FunctionDef,)) and id(st) in self.helpers and self.helpers[id(st)].kind == 'nested' \
                         and self.helpers[id(st)].owner is node:
                     nested[st.name] = self.helpers[id(st)]
+            # a local name that is bound more than once (one def per arm of an if/else, a def that is reassigned) does not denote
+            # ONE function: which body a call runs depends on the path, so it is not expanded here (the rules see the call)
+            rebound = _stored_names(node.body)
+            nested = {k: v for k, v in nested.items() if bound.get(k, 0) == 1 and k not in rebound}
             host_cls = owner if kind == 'class' else None
             host_names = _all_names(node)
             self._host_locals = _stored_names(node.body) | {a.arg for a in node.args.posonlyargs + node.args.args + node.args.kwonlyargs}
